@@ -796,17 +796,30 @@ def _dotted(node):
     return None
 
 
+# translation context: how `self.attr` is written (Weaver: one of the eight fields; other classes: a variable "self.attr" bound by
+# the caller of the interpreter), and which names are locals of the function being translated (for `local.attr`)
+_CTX = {"self_attrs": False, "locals": set()}
+
+
 def _gexpr(e, where):
     def rec(x):
         return _gexpr(x, where)
     if isinstance(e, ast.Attribute) and isinstance(e.value, ast.Name) and e.value.id == "self":
+        if _CTX["self_attrs"]:
+            return "(GVar %s)" % _cstr("self." + e.attr)
         if e.attr not in _FIELDS:
             raise TranslateError("%s: unknown attribute self.%s" % (where, e.attr))
         return "(GSelf %s)" % _FIELDS[e.attr]
     if isinstance(e, ast.Name):
         return "(GVar %s)" % _cstr(e.id)
+    if isinstance(e, ast.Attribute) and isinstance(e.value, ast.Name) and e.value.id in _CTX["locals"]:
+        return "(GMeth %s %s [])" % (rec(e.value), _cstr("." + e.attr))      # attribute of a local object: x.array
     if isinstance(e, ast.Attribute) and _dotted(e) is not None and not _dotted(e).startswith("self."):
         return "(GVar %s)" % _cstr(_dotted(e))      # np.float64, a.shape: a dotted name, given its meaning by the interpreter
+    if isinstance(e, ast.ListComp) and len(e.generators) == 1 and not e.generators[0].ifs and not e.generators[0].is_async \
+            and isinstance(e.generators[0].target, ast.Name):
+        g = e.generators[0]
+        return "(GListComp %s %s %s)" % (rec(e.elt), _cstr(g.target.id), rec(g.iter))
     if isinstance(e, ast.Attribute):
         # attribute of a computed value (np.linspace(...).T): written as a method name with a leading dot and no call
         return "(GMeth %s %s [])" % (rec(e.value), _cstr("." + e.attr))
@@ -866,13 +879,15 @@ def _gexpr(e, where):
         name = _dotted(e.func)
         if name is not None and not name.startswith("self."):
             head = name.split(".")[0]
-            if "." in name and head not in ("np",):
-                # method call on a local / parameter: x.copy()
-                return "(GMeth %s %s %s)" % (rec(e.func.value), _cstr(e.func.attr), _glist(args)) if not kws else _glue_fail(where, e)
+            if "." in name and head not in ("np", "warnings"):
+                # method call on a local / parameter: x.copy(); with keyword arguments: a call of ".name" on (receiver, args)
+                if kws:
+                    return "(GCall %s %s %s)" % (_cstr("." + e.func.attr), _glist([rec(e.func.value)] + args), _glist(kws))
+                return "(GMeth %s %s %s)" % (rec(e.func.value), _cstr(e.func.attr), _glist(args))
             return "(GCall %s %s %s)" % (_cstr(name), _glist(args), _glist(kws))
         if isinstance(e.func, ast.Attribute):
             if kws:
-                _glue_fail(where, e)
+                return "(GCall %s %s %s)" % (_cstr("." + e.func.attr), _glist([rec(e.func.value)] + args), _glist(kws))
             return "(GMeth %s %s %s)" % (rec(e.func.value), _cstr(e.func.attr), _glist(args))
         if isinstance(e.func, ast.Call):
             if kws:
@@ -886,6 +901,8 @@ def _glue_fail(where, e):
 
 
 def _glhs(t, where):
+    if isinstance(t, ast.Attribute) and isinstance(t.value, ast.Name) and t.value.id == "self" and _CTX["self_attrs"]:
+        return "(LVar %s)" % _cstr("self." + t.attr)
     if isinstance(t, ast.Attribute) and isinstance(t.value, ast.Name) and t.value.id == "self":
         if t.attr not in _FIELDS:
             raise TranslateError("%s: assignment to unknown attribute self.%s" % (where, t.attr))
@@ -918,6 +935,14 @@ def _gstmts(body, where):
             out.append("SRaise %s" % _cstr(st.exc.func.id))
         elif isinstance(st, ast.Return) and st.value is not None:
             out.append("SReturn %s" % _gexpr(st.value, w))
+        elif isinstance(st, ast.Expr) and isinstance(st.value, ast.Call) and isinstance(st.value.func, ast.Attribute) \
+                and isinstance(st.value.func.value, ast.Name) and st.value.func.value.id in _CTX["locals"]:
+            # v.m(args) as a statement: the object bound to v may be modified in place; the name is rebound to the value the
+            # leaf semantics gives to "m!" (receiver first)
+            c = st.value
+            args = [_gexpr(c.func.value, w)] + [_gexpr(a_, w) for a_ in c.args]
+            kws = ["(%s, %s)" % (_cstr(k.arg if k.arg is not None else "**"), _gexpr(k.value, w)) for k in c.keywords]
+            out.append("SAssign [(LVar %s)] (GCall %s %s %s)" % (_cstr(c.func.value.id), _cstr("." + c.func.attr + "!"), _glist(args), _glist(kws)))
         elif isinstance(st, ast.Expr) and isinstance(st.value, ast.Call):
             out.append("SExpr %s" % _gexpr(st.value, w))
         elif isinstance(st, ast.AugAssign) and type(st.op) in _GLUE_BINOPS:
@@ -1101,6 +1126,116 @@ def gen_utils_glue():
                                                     "extend_constant", "rectangle_integral", "trapezoid_integral", "integral",
                                                     "find_closest_element_indices_to_values"],
                           "utils", "Functions of sorted_array_utils.py")
+
+
+
+# ==========================================================================================
+# rfa.py -> Gen/RfaGlue.v : the rfa() methods of the strategy classes (and the helpers they call) as glue terms
+# ==========================================================================================
+_RFA_METHODS = [("AbstractRFA", "_initial_oversample"), ("AbstractRFA", "_initial_x_oversample"), ("AbstractRFA", "_initial_y_oversample"),
+                ("PiecewiseConstantRFA", "rfa"), ("LinearFixedRFA", "rfa"), ("LinearAdaptiveRFA", "rfa"), ("ExpFixedRFA", "rfa"), ("ExpAdaptiveRFA", "rfa")]
+
+
+def gen_rfa_glue():
+    fname = "rfa.py"
+    tree = ast.parse(_src(fname))
+    imports, classes = [], {}
+    for node in tree.body:
+        if isinstance(node, ast.Expr) and isinstance(node.value, ast.Constant) and isinstance(node.value.value, str):
+            continue
+        if isinstance(node, ast.Import):
+            for al in node.names:
+                imports.append(("", al.name, al.asname or al.name))
+        elif isinstance(node, ast.ImportFrom):
+            for al in node.names:
+                if al.name == "*":
+                    raise TranslateError("%s:%d: star import" % (fname, node.lineno))
+                imports.append(("." * node.level + (node.module or ""), al.name, al.asname or al.name))
+        elif isinstance(node, ast.ClassDef):
+            if node.decorator_list or node.keywords:
+                raise TranslateError("%s: decorator / metaclass on class %s" % (fname, node.name))
+            classes[node.name] = node
+        else:
+            raise TranslateError("%s:%d: module-level statement outside the glue grammar: %s" % (fname, node.lineno, ast.unparse(node)[:80].split("\n")[0]))
+    bound = {b for _, _, b in imports} | set(classes) | {"len", "range", "zip", "int", "abs", "min", "max"}
+    # class hierarchy and, per class, the methods it defines (so that the meaning of self.m() / super() is visible)
+    hier = []
+    for cname, c in classes.items():
+        bases = []
+        for b in c.bases:
+            nm = _dotted(b)
+            if nm is None:
+                raise TranslateError("%s: base of %s outside the glue grammar" % (fname, cname))
+            bases.append(nm)
+        meths = []
+        for sub in c.body:
+            if isinstance(sub, ast.FunctionDef):
+                meths.append(sub.name)
+            elif (isinstance(sub, ast.Expr) and isinstance(sub.value, ast.Constant)) or isinstance(sub, ast.Pass):
+                continue
+            else:
+                raise TranslateError("%s:%d: class-level statement in %s outside the glue grammar" % (fname, sub.lineno, cname))
+        hier.append("  (%s, (%s, %s))" % (_cstr(cname), _glist(_cstr(b) for b in bases), _glist(_cstr(m) for m in meths)))
+    rows = []
+    save = dict(_CTX)
+    try:
+        for cname, mname in _RFA_METHODS:
+            if cname not in classes:
+                raise TranslateError("%s: class %s not found" % (fname, cname))
+            fn = None
+            for sub in classes[cname].body:
+                if isinstance(sub, ast.FunctionDef) and sub.name == mname:
+                    fn = sub
+            if fn is None:
+                raise TranslateError("%s: %s.%s not found" % (fname, cname, mname))
+            if fn.decorator_list:
+                raise TranslateError("%s: decorator on %s.%s" % (fname, cname, mname))
+            names = [x.arg for x in fn.args.args]
+            if names[:1] != ["self"]:
+                raise TranslateError("%s: %s.%s has no self" % (fname, cname, mname))
+            local_names = set(names[1:])
+            for sub in (n for st in fn.body for n in ast.walk(st)):
+                if isinstance(sub, ast.Name) and isinstance(sub.ctx, ast.Store):
+                    local_names.add(sub.id)
+            _CTX["self_attrs"] = True
+            _CTX["locals"] = set(local_names)
+            clone = ast.FunctionDef(name=cname + "." + mname, args=ast.arguments(posonlyargs=[], args=fn.args.args[1:], vararg=fn.args.vararg,
+                                    kwonlyargs=fn.args.kwonlyargs, kw_defaults=fn.args.kw_defaults, kwarg=fn.args.kwarg, defaults=fn.args.defaults),
+                                    body=fn.body, decorator_list=[], lineno=fn.lineno)
+            rows.append(_fun_row_rfa(clone, fname, bound))
+    finally:
+        _CTX.update(save)
+    out = ["(** GENERATED by tools/translate.py from /repo/src/traffic_weaver/rfa.py — do not edit.",
+           "    The rfa() methods of the strategy classes and the helpers they call, as terms of the glue language of Lib/Glue.v;",
+           "    `self.attr` is the variable \"self.attr\" (bound by the caller of the interpreter to the value the constructor stored). *)",
+           "From TW Require Export Lib.Glue.", "Open Scope string_scope.", "",
+           "Definition rfa_imports : list (string * string * string) := [\n" +
+           ";\n".join("  (%s, %s, %s)" % (_cstr(a), _cstr(b), _cstr(c)) for a, b, c in imports) + "\n].\n",
+           "(** classes: (name, (bases, methods defined in the class body)) *)",
+           "Definition rfa_classes : list (string * (list string * list string)) := [\n" + ";\n".join(hier) + "\n].\n",
+           "Definition rfa_methods : list (string * (list (string * option gexpr) * list gstmt)) := [\n" + ";\n".join(rows) + "\n].\n"]
+    return "\n".join(out)
+
+
+def _fun_row_rfa(fn, fname, bound):
+    """like _fun_row, but single-generator list comprehensions are inside the grammar here"""
+    a = fn.args
+    if a.vararg or a.kwonlyargs or a.posonlyargs:
+        raise TranslateError("%s: parameter kinds of %s outside the glue grammar" % (fname, fn.name))
+    names = [x.arg for x in a.args]
+    defaults = [None] * (len(names) - len(a.defaults)) + list(a.defaults)
+    params = ["(%s, %s)" % (_cstr(nm), "None" if d is None else "Some %s" % _gexpr(d, "%s:%s default" % (fname, fn.name))) for nm, d in zip(names, defaults)]
+    local_names = set(names)
+    for sub in (n for st in fn.body for n in ast.walk(st)):
+        if isinstance(sub, ast.Name) and isinstance(sub.ctx, (ast.Store, ast.Del)):
+            local_names.add(sub.id)
+        if isinstance(sub, (ast.FunctionDef, ast.Lambda, ast.ClassDef, ast.Import, ast.ImportFrom, ast.Global, ast.Nonlocal,
+                            ast.With, ast.Try, ast.While, ast.NamedExpr, ast.GeneratorExp, ast.Delete)):
+            raise TranslateError("%s:%d: %s in %s outside the glue grammar" % (fname, sub.lineno, type(sub).__name__, fn.name))
+    clash = local_names & bound
+    if clash:
+        raise TranslateError("%s: %s rebinds %s" % (fname, fn.name, sorted(clash)))
+    return "  (%s, (%s,\n     %s))" % (_cstr(fn.name), _glist(params), _gstmts(fn.body, "%s:%s" % (fname, fn.name)))
 
 
 # MAIN-BLOCK (keep last)
